@@ -60,4 +60,41 @@ theorem c09_symbolic_predicates_would_differ (hsym : W.truthy sym = true) (m : M
   simp at hq
   rw [hq]
 
+/-! ### Open expression contexts (repair R33)
+
+Besides the mode, user code sees the stack of entered expression contexts (`with symbolic_mode(q):`,
+`with rule_mode(q):`, `with q:`): a predicate body that BUILDS a query of its own while an outer context is visible
+has its predicates attached to that outer query (`broken`).  `symbolic_mode(mode=None)`, the guard of both entry
+points, hides the stack as well as the mode. -/
+
+/-- What user code runs under: the mode and the number of visible expression contexts. -/
+structure Env where
+  mode : Option Mode.EMode
+  contexts : Nat
+
+/-- `with symbolic_mode(mode=None)`: mode off, context stack swapped for an empty one. -/
+def Env.duringEvaluation (_ambient : Env) : Env := ⟨none, 0⟩
+
+/-- The world as user code sees it under an environment. -/
+def World.atEnv (W : World V) (sym broken : V) (e : Env) : World V :=
+  { W with fn := fun n args => if e.mode.isSome then sym else if e.contexts > 0 then broken else W.fn n args }
+
+theorem c09_atEnv_during (broken : V) (e : Env) : W.atEnv sym broken e.duringEvaluation = W := by
+  cases W; simp [World.atEnv, Env.duringEvaluation]
+
+/-- `an(...).evaluate()` and `the(...).evaluate()` called under ANY ambient mode with ANY number of expression contexts
+    open around the call give what they give outside every block. -/
+theorem c09_an_env_irrelevant (broken : V) (e : Env) (q : Query V) :
+    rows (W.atEnv sym broken e.duringEvaluation) D q = rows W D q := by
+  rw [c09_atEnv_during]
+
+theorem c09_the_env_irrelevant (broken : V) (e : Env) (q : Query V) :
+    runThe (W.atEnv sym broken e.duringEvaluation) D q = runThe W D q := by
+  rw [c09_atEnv_during]
+
+/-- Why the contexts must be hidden: with the mode off but a context visible, user predicates do not see the world. -/
+example (broken : V) (n : String) (args : List V) :
+    (W.atEnv sym broken ⟨none, 1⟩).fn n args = broken := by
+  simp [World.atEnv]
+
 end Eql
